@@ -380,7 +380,7 @@ PROPS["C18"] = {
             "with pauses 0-120 ms x origin script (response 0-140 kB, one write / small chunks / MSS-sized chunks, pauses, think time, closing "
             "before/inside/after a response) x client end (closes when complete / stays until quiescence) x start of the next client "
             "(immediately, +1 us .. +60 ms, at quiescence); stop() after the last client in 1/3 of the cases followed by a connect that must be refused. "
-            "Job 'cuts' enumerates no cut, every single cut and every pair of cuts of 19 fixed short streams (single, pipelined x2/x3, named, IPv6, "
+            "Job 'cuts' enumerates no cut, every single cut and every pair of cuts of 21 fixed short streams (single, pipelined x2/x3, named, IPv6, "
             "port 65535, default port v4/v6, refused x2, unresolvable x2, valid+malformed, valid+origin-form, port out of range), each followed by a "
             "second client. Non-trivial = every case (each runs at least one full client/proxy/origin exchange); distinct = distinct "
             "(descriptor, bytes received per client, who ended each connection).",
